@@ -137,7 +137,7 @@ def nested_views(rep, m, quick):
             n += 1
             if r.get('inv_after') and (r['kind'], r['receiver']) not in seen:
                 seen.add((r['kind'], r['receiver']))
-                rep.finding_or_violation('C06:nested:' + r['kind'], 'after %s.%s(%s) (%s) the views of the document disagree: %s' % (
+                rep.finding_or_violation('C06:nested:%s:%s' % (r['kind'], 'raised' if r.get('raised') else 'returned'), 'after %s.%s(%s) (%s) the views of the document disagree: %s' % (
                     r['receiver'], r['kind'], r['target'], 'raised ' + r['raised'] if r.get('raised') else 'returned', r['inv_after']),
                     {'kind': r['kind'], 'receiver': r['receiver'], 'target': r['target'], 'raised': r.get('raised'), 'views_disagree_at': r['inv_after'],
                      'doc': sh[r['case']]['doc'], 'extra': sh[r['case']]['extra']})
